@@ -28,6 +28,8 @@ fn run_child(harness: &str, cfg: Value) {
     let body: Box<dyn Fn() + Send + Sync> = match harness {
         "c01" => Box::new(move || harness::queue::c01(&cfg)),
         "c01_multi" => Box::new(move || harness::queue::c01_multi(&cfg)),
+        "c01_writer_thread_append" => Box::new(move || harness::queue::c01_writer_thread_append(&cfg)),
+        "c04_request_during_flush" => Box::new(move || harness::queue::c04_request_during_flush(&cfg)),
         "c04" => Box::new(move || harness::queue::c04(&cfg)),
         "c05_drop" => Box::new(move || harness::queue::c05_drop(&cfg)),
         "c05_forget" => Box::new(move || harness::queue::c05_forget(&cfg)),
